@@ -273,6 +273,11 @@ pub fn run_c10(ctx: &Ctx) -> i32 {
     st = st.merge(drive(ctx, &Core::with_entries(1, ext_hi, vec!["execute", "execute-funded"]), &[starts.genesis.clone()], true, &homes, &sampler));
     st = st.merge(drive(ctx, &Rich::new(1, rich_hi, vec!["execute", "instantiate"]), &all[..ctx.tier.pick(2, all.len())], true, &homes, &sampler));
     st = st.merge(drive(ctx, &Funds::new(1, ctx.tier.pick(3, 4)), &[starts.genesis.clone()], true, &homes, &sampler));
+    // (a') several messages in one transaction (execute_multi): what a later message's queries
+    // observe includes everything the earlier messages did (extended bundle)
+    let (r, multi_n, multi_seqs) = multi_stage(ctx, &starts.genesis, &homes, &sampler, 2, true);
+    st = st.merge(r);
+    *st.per_family.entry(format!("execute_multi: sequences of 1..=3 messages over {} single messages", multi_n)).or_default() += multi_seqs as u64;
     // (b) through App: in every reachable state, every query kind twice
     let reach = reachable_starts(ctx, &starts.genesis, reach_depth, &homes, &mut st);
     let mut qstates: Vec<StartState> = all.clone();
@@ -648,26 +653,9 @@ fn combine(sender: &str, parts: &[(Option<(String, Coins, Program)>, Option<Msg>
     Program { entry: Entry::Multi { sender: sender.to_string(), msgs }, root: 0, nodes }
 }
 
-pub fn run_c01(ctx: &Ctx) -> i32 {
-    let homes = |k: Kind| matches!(k, Kind::StateOnErr | Kind::StateMissing | Kind::HelperReturn | Kind::MultiResponses | Kind::Panic);
-    // execute_multi: order of execution and visibility of predecessors are part of C01
-    let multi_homes = |k: Kind| homes(k) || matches!(k, Kind::EntryPresence | Kind::EntryStore | Kind::EntryQuery);
-    let sampler = Sampler::new(4, ctx.seed);
-    let mut st = TreeStats::default();
-    let starts = build_starts(ctx, &homes, &mut st);
-    let all = all_starts(&starts);
-    let g = [starts.genesis.clone()];
-    let (core_hi, entries_hi, rich_hi, reach_hi, reach_depth, multi_sz) = ctx.tier.pick((6, 4, 3, 3, 1, 2), (7, 6, 4, 4, 2, 3));
-    // (a) programs x crash points through every entry point
-    st = st.merge(drive(ctx, &Core::new(1, core_hi), &g, false, &homes, &sampler));
-    let kinds = vec!["execute-funded", "execute-helper", "wasm-sudo", "sudo-wasm", "instantiate", "instantiate-helper", "migrate", "migrate-helper", "execute-by-poor"];
-    st = st.merge(drive(ctx, &Core::with_entries(1, entries_hi, kinds.clone()), &all[..ctx.tier.pick(1, 3)], false, &homes, &sampler));
-    st = st.merge(drive(ctx, &Rich::new(1, rich_hi, vec!["execute", "wasm-sudo", "instantiate"]), &all[..ctx.tier.pick(2, all.len())], false, &homes, &sampler));
-    st = st.merge(drive(ctx, &Core::new(1, ctx.tier.pick(4, 5)), &starts.fixed, false, &homes, &sampler));
-    // (b) histories
-    let reach = reachable_starts(ctx, &starts.genesis, reach_depth, &homes, &mut st);
-    st = st.merge(drive(ctx, &Core::with_entries(1, reach_hi, vec!["execute", "wasm-sudo"]), &reach, false, &homes, &sampler));
-    // (c) execute_multi: 1..=3 messages, each a call (all core programs up to multi_sz) to A or B, or a bank leaf
+/// execute_multi: 1..=3 messages, each a call (all core programs up to multi_sz) to A or B, a
+/// write / remove / read of one key, or a bank / staking leaf.
+fn multi_stage(ctx: &Ctx, genesis: &StartState, multi_homes: &(dyn Fn(Kind) -> bool + Sync), sampler: &Sampler, multi_sz: usize, ext: bool) -> (TreeStats, usize, usize) {
     let multi_stats = with_world(false, |world| {
         let ad = Addrs::of(world);
         let core = Core::new(1, multi_sz);
@@ -720,18 +708,42 @@ pub fn run_c01(ctx: &Ctx) -> i32 {
         .par_chunks(128)
         .map(|ch| {
             let mut lst = TreeStats::default();
-            with_world(false, |world| {
+            with_world(ext, |world| {
                 let rich = world.rich.clone();
                 for sq in ch {
                     let parts: Vec<_> = sq.iter().map(|i| multi_stats[*i].clone()).collect();
                     let p = combine(&rich, &parts);
                     sampler.offer(hash64(sq, 31), || json!({"family": "execute_multi", "program": program_json(&p)}));
-                    run_one(ctx, world, "execute_multi", &starts.genesis, p, &multi_homes, &mut lst, ":multi");
+                    run_one(ctx, world, "execute_multi", genesis, p, multi_homes, &mut lst, ":multi");
                 }
             });
             lst
         })
         .reduce(TreeStats::default, TreeStats::merge);
+    (r, n, nseq)
+}
+
+pub fn run_c01(ctx: &Ctx) -> i32 {
+    let homes = |k: Kind| matches!(k, Kind::StateOnErr | Kind::StateMissing | Kind::HelperReturn | Kind::MultiResponses | Kind::Panic);
+    // execute_multi: order of execution and visibility of predecessors are part of C01
+    let multi_homes = |k: Kind| homes(k) || matches!(k, Kind::EntryPresence | Kind::EntryStore | Kind::EntryQuery);
+    let sampler = Sampler::new(4, ctx.seed);
+    let mut st = TreeStats::default();
+    let starts = build_starts(ctx, &homes, &mut st);
+    let all = all_starts(&starts);
+    let g = [starts.genesis.clone()];
+    let (core_hi, entries_hi, rich_hi, reach_hi, reach_depth, multi_sz) = ctx.tier.pick((6, 4, 3, 3, 1, 2), (7, 6, 4, 4, 2, 3));
+    // (a) programs x crash points through every entry point
+    st = st.merge(drive(ctx, &Core::new(1, core_hi), &g, false, &homes, &sampler));
+    let kinds = vec!["execute-funded", "execute-helper", "wasm-sudo", "sudo-wasm", "instantiate", "instantiate-helper", "migrate", "migrate-helper", "execute-by-poor"];
+    st = st.merge(drive(ctx, &Core::with_entries(1, entries_hi, kinds.clone()), &all[..ctx.tier.pick(1, 3)], false, &homes, &sampler));
+    st = st.merge(drive(ctx, &Rich::new(1, rich_hi, vec!["execute", "wasm-sudo", "instantiate"]), &all[..ctx.tier.pick(2, all.len())], false, &homes, &sampler));
+    st = st.merge(drive(ctx, &Core::new(1, ctx.tier.pick(4, 5)), &starts.fixed, false, &homes, &sampler));
+    // (b) histories
+    let reach = reachable_starts(ctx, &starts.genesis, reach_depth, &homes, &mut st);
+    st = st.merge(drive(ctx, &Core::with_entries(1, reach_hi, vec!["execute", "wasm-sudo"]), &reach, false, &homes, &sampler));
+    // (c) execute_multi
+    let (r, n, nseq) = multi_stage(ctx, &starts.genesis, &multi_homes, &sampler, multi_sz, false);
     st = st.merge(r);
     *st.per_family.entry(format!("execute_multi: sequences of 1..=3 messages over {} single messages", n)).or_default() += nseq as u64;
     // (d) sudo(Bank mint) and send_tokens helper
